@@ -726,6 +726,22 @@ func genResumeSweep(c *ctx) {
 	}
 	c.count(fmt.Sprintf("transfers:%d", len(transfers)))
 	parallelDo(len(transfers), 28, func(i int) { c08Run(work, i, transfers[i], 40*time.Second) })
+	// a failed multi-file transfer is re-run file by file so that the replay names the one pair
+	var singles []*c08Transfer
+	for _, t := range transfers {
+		if t.problem != "" && !t.stall && len(t.pairs) > 1 && len(singles) < 64 {
+			for _, p := range t.pairs {
+				q := &c08Pair{name: p.name, kind: p.kind, src: p.src, dst: p.dst, payload: -1}
+				singles = append(singles, &c08Transfer{upload: t.upload, binary: t.binary, proto: t.proto, seed: t.seed, pairs: []*c08Pair{q}, timeout: 3})
+			}
+		}
+	}
+	parallelDo(len(singles), 28, func(i int) { c08Run(work, 500000+i, singles[i], 40*time.Second) })
+	for _, t := range singles {
+		if t.problem != "" {
+			c08Judge(c, t, int64(B), true)
+		}
+	}
 	for _, t := range transfers {
 		c08Judge(c, t, int64(B), true)
 	}
@@ -733,7 +749,7 @@ func genResumeSweep(c *ctx) {
 
 // ---- real-block cases + delegation + unit cases ----------------------------------------
 
-func c08RealBlock(c *ctx) {
+func c08RealBlock(c *ctx) []*c08Transfer {
 	B := int(trzsz.VerifPrefixHashStep())
 	work, _ := os.MkdirTemp("", "e2e_resume_big_")
 	defer os.RemoveAll(work)
@@ -756,7 +772,7 @@ func c08RealBlock(c *ctx) {
 		{25 * MiB, 24 * MiB, 0, "diverge-shorter"},         // first byte differs
 		{27 * MiB, -1, -1, "absent"},
 	}
-	n := c.pick(5, len(all)*2)
+	n := c.pick(8, len(all)*2)
 	var transfers []*c08Transfer
 	for i := 0; i < n; i++ {
 		bc := all[i%len(all)]
@@ -766,13 +782,7 @@ func c08RealBlock(c *ctx) {
 		transfers = append(transfers, t)
 	}
 	parallelDo(len(transfers), 5, func(i int) { c08Run(work, 100000+i, transfers[i], 120*time.Second) })
-	for _, t := range transfers {
-		c.count("real-block-transfer")
-		c08Judge(c, t, int64(B), false)
-		for _, p := range t.pairs {
-			p.src, p.dst, p.final = nil, nil, nil
-		}
-	}
+	return transfers
 }
 
 // c08Overlay builds <go>/bin/ov64/{corr,trz,tsz} with kPrefixHashStep rewritten to 64.
@@ -855,7 +865,7 @@ func genResume(c *ctx) {
 	if err := cmd.Start(); err != nil {
 		panic("overlay harness: " + err.Error())
 	}
-	c08RealBlock(c)
+	big := c08RealBlock(c)
 	if err := cmd.Wait(); err != nil {
 		panic("overlay harness failed: " + err.Error() + "\n" + tailStr(cerr.String(), 3000))
 	}
@@ -892,6 +902,11 @@ func genResume(c *ctx) {
 	}
 	if st.Distribution["block-size:64"] == 0 {
 		panic("the overlay copy did not run with block size 64")
+	}
+	// the real-block cases are judged last so that a replay names a small case when there is one
+	for _, t := range big {
+		c.count("real-block-transfer")
+		c08Judge(c, t, trzsz.VerifPrefixHashStep(), false)
 	}
 }
 
